@@ -97,3 +97,57 @@ def document_text(source, settings=None, title="TITLE", module="MODNAME", name="
         logger.propagate = old_prop
         r.stderr = err.getvalue()
     return r
+
+
+class MainRun:
+    __slots__ = ("code", "exc", "stdout", "stderr")
+
+
+def run_main(argv, cwd=None, cfgdir=None):
+    """cminx.main(argv) in-process: stdout/stderr captured, SystemExit turned into a status.
+    The per-user configuration directory is pinned (CMINXDIR) so the host cannot leak in."""
+    use_repo_source()
+    import cminx
+    r = MainRun()
+    r.code, r.exc = 0, None
+    out, err = io.StringIO(), io.StringIO()
+    old_cwd = os.getcwd()
+    old_env = {k: os.environ.get(k) for k in ("CMINXDIR", "HOME", "XDG_CONFIG_HOME")}
+    if cfgdir is None:
+        cfgdir = os.path.join(scratch_dir(), "empty-cfg")
+        os.makedirs(cfgdir, exist_ok=True)
+    os.environ["CMINXDIR"] = cfgdir
+    os.environ["HOME"] = cfgdir
+    os.environ["XDG_CONFIG_HOME"] = cfgdir
+    root = logging.getLogger()
+    saved_root = (list(root.handlers), root.level)
+    try:
+        if cwd is not None:
+            os.chdir(cwd)
+        with contextlib.redirect_stdout(out), contextlib.redirect_stderr(err):
+            try:
+                cminx.main(list(argv))
+            except SystemExit as e:
+                c = e.code
+                r.code = c if isinstance(c, int) else (0 if c is None else 1)
+            except BaseException as e:  # noqa
+                if isinstance(e, KeyboardInterrupt):
+                    raise
+                r.exc = e
+                r.code = 1
+    finally:
+        os.chdir(old_cwd)
+        for k, v in old_env.items():
+            if v is None:
+                os.environ.pop(k, None)
+            else:
+                os.environ[k] = v
+        # cminx.main installs logging handlers bound to the captured streams: drop them again
+        for lg in [root, logging.getLogger("cminx")]:
+            for h in list(lg.handlers):
+                lg.removeHandler(h)
+        for h in saved_root[0]:
+            root.addHandler(h)
+        root.setLevel(saved_root[1])
+        r.stdout, r.stderr = out.getvalue(), err.getvalue()
+    return r
